@@ -280,10 +280,10 @@ def Final (N : Nat) (p : St × Res) : Prop :=
 
 theorem ctxAlloc_small (N : Nat) : Small N ctxAlloc := Or.inr (by decide)
 
-theorem sof55_allocs {N : Nat} {st st' : St} {data : Bytes} (ha : ∀ a ∈ st.allocs, Small N a) :
-    (sof55 st data = .cont st' → ∀ a ∈ st'.allocs, Small N a) ∧
-    (∀ o, sof55 st data = .stop st' o → ∀ a ∈ st'.allocs, Small N a) := by
-  unfold sof55
+theorem sof55Core_allocs {N : Nat} {st st' : St} {data : Bytes} (ha : ∀ a ∈ st.allocs, Small N a) :
+    (sof55Core st data = .cont st' → ∀ a ∈ st'.allocs, Small N a) ∧
+    (∀ o, sof55Core st data = .stop st' o → ∀ a ∈ st'.allocs, Small N a) := by
+  unfold sof55Core
   repeat' split
   all_goals first
     | (constructor
@@ -293,6 +293,15 @@ theorem sof55_allocs {N : Nat} {st st' : St} {data : Bytes} (ha : ∀ a ∈ st.a
        · intro h; injection h with h1; subst h1
          exact mem_append_small ha (by intro a h'; simp at h'; subst h'; exact ctxAlloc_small N)
        · intro o h; cases h; done)
+
+theorem sof55_allocs {N : Nat} {st st' : St} {data : Bytes} (ha : ∀ a ∈ st.allocs, Small N a) :
+    (sof55 st data = .cont st' → ∀ a ∈ st'.allocs, Small N a) ∧
+    (∀ o, sof55 st data = .stop st' o → ∀ a ∈ st'.allocs, Small N a) := by
+  unfold sof55
+  by_cases hc : st.comps ≠ 0
+  · rw [if_pos hc]
+    exact ⟨(fun h => by cases h), (fun o h => by cases h; exact ha)⟩
+  · rw [if_neg hc]; exact sof55Core_allocs ha
 
 theorem lse_allocs {N : Nat} {st st' : St} {data : Bytes} (ha : ∀ a ∈ st.allocs, Small N a) :
     (lse st data = .cont st' → ∀ a ∈ st'.allocs, Small N a) ∧
@@ -1111,13 +1120,22 @@ open PC JM
 
 /-! near-lossless JPEG-LS: allocations up to the start of the scan -/
 
+theorem nsof55Core_allocs {st st' : St} {data : Bytes} :
+    (nsof55Core st data = .cont st' → st'.allocs = st.allocs) ∧
+    (∀ o, nsof55Core st data = .stop st' o → st'.allocs = st.allocs) := by
+  unfold nsof55Core
+  split
+  · exact ⟨fun h => (by cases h), fun o h => (by injection h with h1 _; subst h1; rfl)⟩
+  · exact ⟨fun h => (by injection h with h1; subst h1; rfl), fun o h => (by cases h)⟩
+
 theorem nsof55_allocs {st st' : St} {data : Bytes} :
     (nsof55 st data = .cont st' → st'.allocs = st.allocs) ∧
     (∀ o, nsof55 st data = .stop st' o → st'.allocs = st.allocs) := by
   unfold nsof55
-  split
-  · exact ⟨fun h => (by cases h), fun o h => (by injection h with h1 _; subst h1; rfl)⟩
-  · exact ⟨fun h => (by injection h with h1; subst h1; rfl), fun o h => (by cases h)⟩
+  by_cases hc : st.comps ≠ 0
+  · rw [if_pos hc]
+    exact ⟨(fun h => by cases h), (fun o h => by cases h; rfl)⟩
+  · rw [if_neg hc]; exact nsof55Core_allocs
 
 theorem nlse_allocs {st st' : St} {data : Bytes} :
     (nlse st data = .cont st' → st'.allocs = st.allocs) ∧
